@@ -17,7 +17,7 @@ Fixpoint blk (l : list stmt) : block :=
    use(x)               # x is 3 here; the checker reports {4, 1} *)
 Definition w_dead : block :=
   blk [SAssign 1 10;
-       SLoop true (blk [SAssign 1 3; SIf (blk [SBreak; SAssign 1 1]) BNil; SAssign 1 4]) BNil;
+       SLoop LForever (blk [SAssign 1 3; SIf (blk [SBreak; SAssign 1 1]) BNil; SAssign 1 4]) BNil;
        SUse 1 99].
 
 Lemma w_dead_reach : strict_reach w_dead 99 3.
@@ -49,7 +49,7 @@ Proof. vm_compute. reflexivity. Qed.
    use(x)               # x is 10 or 2 here; the checker used to report {1, 10}, now {1, 2, 10} *)
 Definition w_fin : block :=
   blk [SAssign 1 10;
-       SLoop false (blk [STry (blk [SAssign 1 1; SBreak]) HNil BNil (blk [SAssign 1 2])]) BNil;
+       SLoop LCond (blk [STry (blk [SAssign 1 1; SBreak]) HNil BNil (blk [SAssign 1 2])]) BNil;
        SUse 1 99].
 
 Lemma w_fin_reach : strict_reach w_fin 99 2.
@@ -85,7 +85,7 @@ Proof. split; [vm_compute; reflexivity|]. split; [exact w_fin_reach|vm_compute; 
    use(x)               # use 9: strict {4}; reported {1, unbound, 2, 3, 4} *)
 Definition w_ok : block :=
   blk [SIf (blk [SAssign 1 1]) BNil;
-       SLoop false (blk [SUse 1 7; STry (blk [SAssign 1 2; SCall; SAssign 1 3]) (HCons (blk [SUse 1 8]) HNil) BNil BNil])
+       SLoop LCond (blk [SUse 1 7; STry (blk [SAssign 1 2; SCall; SAssign 1 3]) (HCons (blk [SUse 1 8]) HNil) BNil BNil])
                    (blk [SAssign 1 4]);
        SUse 1 9].
 
@@ -122,7 +122,7 @@ Qed.
    use(x)               # use 8: strict {10, 1, 2} *)
 Definition w_brk : block :=
   blk [SAssign 1 10;
-       SLoop false (blk [STry (blk [SAssign 1 1; SCall; SBreak]) (HCons (blk [SAssign 1 2; SContinue]) HNil) BNil BNil])
+       SLoop LCond (blk [STry (blk [SAssign 1 1; SCall; SBreak]) (HCons (blk [SAssign 1 2; SContinue]) HNil) BNil BNil])
                    (blk [SUse 1 7]);
        SUse 1 8].
 
@@ -156,7 +156,7 @@ Qed.
    else:
        x = 2 *)
 Definition w_upper : block :=
-  blk [SAssign 1 1; SLoop false (blk [SUse 1 7]) (blk [SAssign 1 2])].
+  blk [SAssign 1 1; SLoop LCond (blk [SUse 1 7]) (blk [SAssign 1 2])].
 
 Lemma w_upper_body_nil : forall prot o x, lpath_b prot (blk [SUse 1 7]) o x -> x = [].
 Proof.
@@ -197,8 +197,22 @@ Qed.
    use(x)               # use 9: {2, 3, 1, unbound} *)
 Definition w_up_ok : block :=
   blk [SIf (blk [SAssign 1 1]) BNil;
-       SLoop false (blk [SWith true (blk [STry (blk [SAssign 1 2; SCall; SAssign 1 3]) (HCons (blk [SUse 1 8]) HNil) BNil BNil])]) BNil;
+       SLoop LCond (blk [SWith true (blk [STry (blk [SAssign 1 2; SCall; SAssign 1 3]) (HCons (blk [SUse 1 8]) HNil) BNil BNil])]) BNil;
        SUse 1 9].
 
 Lemma w_up_ok_facts : upper_ok w_up_ok = true /\ lower_ok w_up_ok = true /\ reported w_up_ok 9 = [2; 3; 1; 0].
 Proof. split; [vm_compute; reflexivity|]. split; vm_compute; reflexivity. Qed.
+
+(* an always-entered loop with a literal target and an else clause:
+   for x in (5,):
+       use(x)           # use 3
+   else:
+       use(x)           # use 5: x is 5 (the loop ran at least once)
+   use(x)               # use 6 *)
+Definition w_always : block :=
+  blk [SLoop LAlways (blk [SAssign 1 5; SUse 1 3]) (blk [SUse 1 5]); SUse 1 6].
+
+Lemma w_always_facts :
+  lower_ok w_always = true /\ reported w_always 3 = [5] /\ reported w_always 5 = [5] /\ reported w_always 6 = [5] /\
+  undefined_name w_always 5 = false /\ possibly_undefined w_always 6 = false.
+Proof. repeat split; vm_compute; reflexivity. Qed.
